@@ -1,12 +1,10 @@
 SPECIFICATION Spec
 CONSTANTS
   Types <- TChar
-  Steps <- StepsStd
+  Steps <- StepsBig
   GridOnly = FALSE
   Dump = TRUE
   Cap = 300
-INVARIANT RefSound
-INVARIANT BodySound
 INVARIANT ImplFollowsRef
 INVARIANT ImplAgreesOffHazards
 INVARIANT HazardShape
